@@ -102,6 +102,10 @@ func main() {
 		r := rand.New(rand.NewSource(seed))
 		g.gen(r, n, func(op Op) { enc.Encode(op) })
 	case "exec":
+		if t := os.Getenv("VERIF_OP_DRAIN_MS"); t != "" {
+			ms, _ := strconv.Atoi(t)
+			opDrain = time.Duration(ms) * time.Millisecond
+		}
 		if t := os.Getenv("VERIF_OP_TIMEOUT_MS"); t != "" {
 			ms, _ := strconv.Atoi(t)
 			opTimeout = time.Duration(ms) * time.Millisecond
